@@ -100,7 +100,7 @@ def frac_round_trip(ctx, rid, alias_curr=None):
                     construct=f"frac key: write {short(wkey, 30)} / read {[short(r, 30) for r in rkeys]}")
     # write_toml serialises every live accumulator
     it = [n for n in walk_local(wt) if isinstance(n, ast.For) and "traj_data" in ast.unparse(n.iter)]
-    if it and ("keys()" in ast.unparse(it[0].iter) or ast.unparse(it[0].iter).endswith("traj_data") or "sorted(" in ast.unparse(it[0].iter)) and not [x for x in walk_local(it[0]) if isinstance(x, (ast.Continue, ast.Break))]:
+    if it and ("keys()" in ast.unparse(it[0].iter) or "items()" in ast.unparse(it[0].iter) or ast.unparse(it[0].iter).endswith("traj_data") or "sorted(" in ast.unparse(it[0].iter)) and not [x for x in walk_local(it[0]) if isinstance(x, (ast.Continue, ast.Break))]:
         ctx.ok(rid, it[0], "write_toml iterates over all keys of traj_data (every live accumulator is persisted)")
     else:
         ctx.bad(rid, wt, "write_toml does not persist the accumulators of every path in traj_data")
@@ -482,6 +482,67 @@ def r66(ctx):
     c08.r87(Proxy(ctx))
 
 
+def r612(ctx):
+    """Emission order is canonical. A table that write_toml (or the data-file writer) fills by
+    iterating over a dictionary of per-run state inherits that dictionary's insertion order, which
+    depends on history: during a run `traj_data` is filled in path-creation order, at a restart
+    load_paths refills it in ensemble order. The iteration must therefore go through sorted(...)
+    (or over a list whose order is itself persisted)."""
+    rid = "R-6.12"
+    tree = ctx.tree
+    cls = tree.cls(REPEX, "REPEX_state")
+    init = tree.func(REPEX, "REPEX_state.__init__")
+    dict_attrs = set()
+    for n in list(walk_local(init)) + [st for st in cls.body if isinstance(st, ast.Assign)]:
+        if isinstance(n, ast.Assign) and (isinstance(n.value, ast.Dict) or (isinstance(n.value, ast.Call) and last_name(n.value) in ("dict", "OrderedDict", "defaultdict"))):
+            for t in n.targets:
+                if isinstance(t, ast.Attribute) and isinstance(t.value, ast.Name) and t.value.id == "self":
+                    dict_attrs.add(t.attr)
+                elif isinstance(t, ast.Name) and n in cls.body:
+                    dict_attrs.add(t.id)
+    writers = [tree.func(REPEX, "REPEX_state.write_toml"), tree.func(REPEX, "write_to_pathens")]
+    n_loops = 0
+    for f in writers:
+        recv = "self" if f.name == "write_toml" else [a.arg for a in f.args.args][0]
+        for L in [x for x in walk_local(f) if isinstance(x, (ast.For, ast.ListComp, ast.DictComp, ast.GeneratorExp))]:
+            its = [L.iter] if isinstance(L, ast.For) else [g.iter for g in L.generators]
+            for it in its:
+                e = it
+                wrapped_sorted = False
+                while isinstance(e, ast.Call) and isinstance(e.func, ast.Name) and e.func.id in ("sorted", "list", "tuple", "enumerate", "reversed"):
+                    if e.func.id == "sorted":
+                        wrapped_sorted = True
+                    e = e.args[0] if e.args else e
+                    if not isinstance(e, ast.AST) or e is it and not e.args:
+                        break
+                base = e
+                if isinstance(base, ast.Call) and isinstance(base.func, ast.Attribute) and base.func.attr in ("keys", "items", "values") and not base.args:
+                    base = base.func.value
+                p_ = path_of(base)
+                attr = None
+                if p_ and p_.startswith(recv + ".") and p_.count(".") == 1:
+                    attr = p_.split(".")[1]
+                elif isinstance(base, ast.Name):
+                    # a local alias:  traj_data = state.traj_data
+                    fl = flow_of(f)
+                    try:
+                        e2, _ = deref(fl, base, fl.cfg.node_of(L) if isinstance(L, ast.For) else fl.cfg.node_of(L))
+                    except Exception:
+                        e2 = base
+                    p2 = path_of(e2)
+                    if p2 and p2.startswith(recv + ".") and p2.count(".") == 1:
+                        attr = p2.split(".")[1]
+                if attr is None or attr not in dict_attrs:
+                    continue
+                n_loops += 1
+                if wrapped_sorted:
+                    ctx.ok(rid, L, f"{f.name}: iteration over the dictionary `{attr}` goes through sorted(): the emitted order does not depend on insertion history")
+                else:
+                    ctx.bad(rid, L, f"{f.name} fills what it writes by iterating over the dictionary `{attr}` in insertion order; that order depends on history (a run inserts paths in creation order, a restart re-inserts the live paths in ensemble order), so the same state is written differently by a run that was interrupted: restart.toml is no longer byte-identical to that of an uninterrupted run", construct=f"{f.name}: unsorted iteration over {attr}")
+    if n_loops == 0:
+        raise AnalysisError("R-6.12: no iteration over a per-run dictionary found in write_toml / write_to_pathens")
+
+
 def run(ctx):
     ctx.rule("R-6.6", "in-flight jobs are persisted and re-issued in one ensemble-index unit (offset symmetry of current.locked; shared with C08 R-8.7)", floor=4)
     ctx.rule("R-6.1", "restart.toml writer/reader agreement: keys, roles, key representation", floor=12)
@@ -499,6 +560,8 @@ def run(ctx):
     ctx.attempt(r63, ctx)
     ctx.attempt(r64, ctx)
     ctx.attempt(r66, ctx)
+    ctx.rule("R-6.12", "tables written to restart.toml / the data file from a per-run dictionary are emitted in sorted order (insertion order differs between a run and its restart)", floor=1)
+    ctx.attempt(r612, ctx)
     from .shared import commit_is_final
     ctx.attempt(commit_is_final, ctx, "R-6.5")
     from . import c14
@@ -515,6 +578,8 @@ def run(ctx):
 
 
 VARIANTS = [
+    B("c06-frac-table-in-insertion-order", REPEX, "        for key in sorted(self.traj_data.keys()):\n            fracs = [str(i) for i in self.traj_data[key][\"frac\"]]", "        for key, data in self.traj_data.items():\n            fracs = [str(i) for i in data[\"frac\"]]", "R-6.12", control=True, why="seeded C06_f"),
+    K("c06-keep-frac-table-sorted-items", REPEX, "        for key in sorted(self.traj_data.keys()):\n            fracs = [str(i) for i in self.traj_data[key][\"frac\"]]", "        for key, data in sorted(self.traj_data.items()):\n            fracs = [str(i) for i in data[\"frac\"]]"),
     B("c06-reissue-recorded-as-int", REPEX, "        self.locked.append((enss, trajs0))\n", "        self.locked.append((enss, [i.path_number for i in trajs]))\n", "R-6.11", why="seeded C06_e (= C17_a)"),
     B("c06-load-energies-swapped", PATH, '                energy["data"]["ekin"], energy["data"]["vpot"]', '                energy["data"]["vpot"], energy["data"]["ekin"]', "R-6.10", control=True, why="seeded C06_d"),
     B("c06-restart-resets-data-file", SETUP, '        curr["restarted_from"] = config["current"]["cstep"]\n', '        curr["restarted_from"] = config["current"]["cstep"]\n        config["output"]["data_file"] = os.path.join(config["output"]["data_dir"], "infretis_data.txt")\n', "R-6.9", control=True, why="seeded C04_d"),
